@@ -3,6 +3,7 @@ import OmbottModel.Lemmas.RouterGet
 import OmbottModel.Lemmas.RouterPrio
 import OmbottModel.Lemmas.RouterIns
 import OmbottModel.Lemmas.RouterResolve
+import OmbottModel.Lemmas.RouterParse
 /-!
 C01 — Route resolution equals the plain rule-by-rule semantics.
 Property theorems only; helper lemmas live in `Lemmas/Router*.lean`.
@@ -42,6 +43,18 @@ theorem insert_denote (t t' : Node) (pat : List Sym) (d : Nat) (names : List Str
   intro e
   have := (insN_spec _ t h pat t' hi).2.2.2 e
   simpa [newRule, denote] using this
+
+/-- **Domain of the history theorems.**  The hypothesis `OpOK` they carry ("the parsed pattern
+has no literal marker character") holds for every registration whose rule text does not contain
+the router's own wildcard marker (CR): the literal characters of a parsed pattern all come from
+the rule text. -/
+theorem rule_without_marker_ok (cenv : CompileEnv) (a : AddArgs) (hr : Gen.paramToken ∉ a.rule) :
+    OpOK (.add cenv a) := opOK_of_no_marker cenv a hr
+
+/-- the parser lists exactly one parameter name per wildcard of the pattern -/
+theorem one_name_per_wildcard (cenv : CompileEnv) (rule : Str) (p : Parsed)
+    (h : parseRule cenv rule = .ok p) : p.params.length = countToks p.syms :=
+  parseRule_params_len h
 
 /-- after every history of `add` / `remove_method` calls the tree is well formed and holds
 exactly the rules the `routes` table lists -/
@@ -181,5 +194,96 @@ theorem resolve_notFound_iff_miss (env : FilterEnv) (R : Router) (path : Str) (m
     cases ho : R.obj? id with
     | none => simp
     | some r => cases hgi : r.getItem ms <;> simp [hgi]
+
+
+
+/-! ## Non-vacuity: concrete instances meeting the hypotheses -/
+section NonVacuity
+
+/-- an `int` filter on ASCII digits, no selectors -/
+def nvEnv : FilterEnv := fun f s =>
+  if f = "int(None)".toList then
+    (if s.takeWhile Char.isDigit = [] then none
+     else some ⟨.conv ("int:".toList ++ s.takeWhile Char.isDigit), (s.takeWhile Char.isDigit).length, none⟩)
+  else none
+
+theorem nvEnv_noSel : NoSel nvEnv := by
+  intro f s r h
+  unfold nvEnv at h
+  split at h
+  · split at h
+    · cases h
+    · simp only [Option.some.injEq] at h; subst h; rfl
+  · cases h
+
+def nvCenv : CompileEnv := fun _ => none
+
+/-- `/a/<x:int>` (GET), a rejected `/a/:y` (filter mismatch), `/a/<z:int>` (POST, same pattern,
+other name), `/a/b` (GET, ANY), removal of ANY -/
+def nvOps : List Op :=
+  [ .add nvCenv { rule := "/a/<x:int>".toList, methods := ["get".toList], handler := 0 },
+    .add nvCenv { rule := "/a/:y".toList, methods := ["POST".toList], handler := 1 },
+    .add nvCenv { rule := "/a/<z:int>".toList, methods := ["POST".toList], handler := 2 },
+    .add nvCenv { rule := "/a/b".toList, methods := ["GET".toList, "ANY".toList], handler := 3 },
+    .removeMethod 1 ["ANY".toList] ]
+
+theorem opOK_of_parse {cenv : CompileEnv} {a : AddArgs} {p : Parsed}
+    (h : parseRule cenv a.rule = .ok p) (hn : NoLitTok p.syms) : OpOK (.add cenv a) := by
+  intro p' hp'; rw [h] at hp'; cases hp'; exact hn
+
+theorem nvOps_ok : ∀ op ∈ nvOps, OpOK op := by
+  intro op hop
+  simp only [nvOps, List.mem_cons, List.not_mem_nil, or_false] at hop
+  -- (directly; `rule_without_marker_ok` with `by decide` on the rule text works as well)
+  rcases hop with rfl | rfl | rfl | rfl | rfl
+  · exact opOK_of_parse (p := ⟨[.lit 'a', .lit '/', .tok (some "int(None)".toList)], ["x".toList],
+      [.lit 'a', .lit '/', .tok (some "int(None)".toList)]⟩) (by rfl)
+      (by intro c hc; simp at hc; rcases hc with rfl | rfl <;> decide)
+  · exact opOK_of_parse (p := ⟨[.lit 'a', .lit '/', .tok none], ["y".toList],
+      [.lit 'a', .lit '/', .tok none]⟩) (by rfl)
+      (by intro c hc; simp at hc; rcases hc with rfl | rfl <;> decide)
+  · exact opOK_of_parse (p := ⟨[.lit 'a', .lit '/', .tok (some "int(None)".toList)], ["z".toList],
+      [.lit 'a', .lit '/', .tok (some "int(None)".toList)]⟩) (by rfl)
+      (by intro c hc; simp at hc; rcases hc with rfl | rfl <;> decide)
+  · exact opOK_of_parse (p := ⟨[.lit 'a', .lit '/', .lit 'b'], [], [.lit 'a', .lit '/', .lit 'b']⟩) (by rfl)
+      (by intro c hc; simp at hc; rcases hc with rfl | rfl | rfl <;> decide)
+  · trivial
+
+def nvT1 : Node :=
+  match treeAdd Node.root [.lit 'a', .lit '/', .tok none] 0 ["x".toList] with
+  | .ok t => t
+  | .error _ => Node.root
+
+def nvT2 : Node :=
+  match treeAdd nvT1 [.lit 'a', .lit '/', .lit 'b', .lit 'c'] 1 [] with
+  | .ok t => t
+  | .error _ => Node.root
+
+/-- `get_eq_spec`, `insert_wf`, `insert_denote`: a tree with a literal and a wildcard sibling
+(the second insertion splits a key); the lookup backtracks from the literal child to the wildcard -/
+example : treeAdd Node.root [.lit 'a', .lit '/', .tok none] 0 ["x".toList] = .ok nvT1 ∧
+    treeAdd nvT1 [.lit 'a', .lit '/', .lit 'b', .lit 'c'] 1 [] = .ok nvT2 ∧ WFN nvT2 ∧
+    (treeGet nvEnv nvT2 "a/bd".toList).core = some (0, ["x".toList], [.str "bd".toList]) ∧
+    (treeGet nvEnv nvT2 "a/bc".toList).core = some (1, [], []) :=
+  ⟨by rfl, by rfl,
+   insert_wf nvT1 nvT2 [.lit 'a', .lit '/', .lit 'b', .lit 'c'] 1 [] false
+     (insert_wf Node.root nvT1 [.lit 'a', .lit '/', .tok none] 0 ["x".toList] false root_wf.1 (by rfl)) (by rfl),
+   by rfl, by rfl⟩
+
+/-- `resolve_eq_rule_by_rule`, `params_are_rule_names`, `filter_guard`: the POST handler of
+`/a/<z:int>` gets `z` (not `x`, the name the pattern was first registered with), bound to the
+converted value -/
+example : (Router.run asciiUpper nvOps).resolve nvEnv "/a/12".toList ["POST".toList, "ANY".toList] =
+    .found 2 "POST".toList [("z".toList, .conv "int:12".toList)] [] := by decide +kernel
+
+/-- `rule_without_marker_ok`: the hypothesis is decidable on the rule text -/
+example : OpOK (.add nvCenv { rule := "/a/<x:int>".toList, methods := [], handler := 0 }) :=
+  rule_without_marker_ok _ _ (by decide)
+
+/-- the filter rejects: not found -/
+example : (Router.run asciiUpper nvOps).resolve nvEnv "/a/x".toList ["POST".toList, "ANY".toList] =
+    .notFound [] [] "a/".toList := by decide +kernel
+
+end NonVacuity
 
 end Ombott.Router
